@@ -254,7 +254,9 @@ def correspondence(ctx):
     ctx.rule = ('(a) exhaustive: 10 condition outcomes x 4 message sources x 4 else sources x justification ok/raises x delayed x '
                 '3 report attachments; (b) every declared format name, each with an extra width spec, near-miss names and suffix '
                 'clashes (filename/name), through a recording formatter; (c) random histories of override()/clear_report()/'
-                'contextualize_report over a 4-class hierarchy with own and inherited attributes, observed after every operation.')
+                'contextualize_report over a 4-class hierarchy with own and inherited attributes, observed after every operation; (d) the same '
+                'feedback class (with and without constant_fields) created 2-5 times in one grading with different keywords / locations / '
+                'a missing template field: every object rendered from its own fields, class attributes unchanged.')
 
 
 def run(ctx):
